@@ -1077,7 +1077,7 @@ Proof.
   cbn [struct_content] in Hct. unfold Sem_derive_proofs.mono_ty in Hm0. cbn [pmono] in Hm0. cbn [small_arr] in Hsm0. cbn [Gen.name_of] in Ha0.
   destruct (lookup R id2) as [d2|] eqn:Hlk2; [|contradiction].
   destruct d2 as [a2 s2|]; [|contradiction]. destruct s2 as [| |fs2]; try contradiction. destruct fs2 as [|fl0 fs2]; [contradiction|].
-  destruct Hct as [Htag2 Hnin]. apply andb_true_iff in Hm0 as [Hlen2 Hargs2]. apply Nat.eqb_eq in Hlen2.
+  destruct Hct as (Htag2 & Hnin & _). apply andb_true_iff in Hm0 as [Hlen2 Hargs2]. apply Nat.eqb_eq in Hlen2.
   apply bind_ok in Ha0 as (l2 & Hl2 & Ha0). inversion Ha0; subst a0; clear Ha0.
   set (d2 := DStruct a2 (SNamed (fl0 :: fs2))) in *.
   destruct (de_env_facts _ _ Hlk2) as (Hpd2 & Hnp2 & dc2 & Hdl2 & Hdc2).
